@@ -11,7 +11,9 @@ Decided - the two structural conditions without which no pipeline can be right:
     i*bytes_of_X(module,1) with the same width, shown as a data-dependence fact (E4 support sets, both CPU paths, both
     module types where the entry exists): the expressions stored in output limb i depend only on input limb i (and on the
     prepared scalar for svp_apply), together they use every coefficient of that limb, and limbs beyond the input are
-    exact zeros.  (VMP_PMAT producer/consumer agreement is the layout clause of C02.)
+    exact zeros.
+ M  VMP_PMAT: the layout map derived from the producer and the consumer's dot product under it agree on a small box with
+    one-column and odd-column matrices and both prepared layouts (the engine of C02; its full box is C02's).
  P  stage dependence: output limb i of every pipeline stage (22 operations: coefficient-space arithmetic, both
     normalizations, DFT/iDFT, big arithmetic, svp and vmp products) depends on every input limb the exact operation
     uses - limb i for limb-wise operations, all less significant limbs for the carry chains of the normalizations
@@ -323,6 +325,42 @@ def stage_dependence(L, R, tier):
     return nruns
 
 
+def prepared_matrix(L, R, tier):
+    """M: the VMP_PMAT written by vmp_prepare_contiguous is the object vmp_apply_dft_to_dft reads: the producer-derived layout
+    map (every matrix entry's transform stored exactly once, inside the object) and the consumer's dot product under that map
+    (the engine of C02 on a small box that includes one-column and odd-column matrices and both prepared layouts)"""
+    import itertools
+    from ..values import Canon
+    from . import C02
+    n = 0
+    for cpu in ('accel', 'generic'):
+        bad = None
+        for N in (4, 8, 16):
+            cn = Canon()
+            for nrows, ncols in itertools.product((1, 2, 3), (1, 2, 3)):
+                sh = {'N': N, 'nrows': nrows, 'ncols': ncols}
+                try:
+                    lay, err = C02.derive_layout(L, N, nrows, ncols, cpu, cn)
+                    n += 1
+                    if err:
+                        bad = bad or (sh, 'producer: ' + err)
+                        continue
+                    for a_size, res_size in ((nrows, ncols), (1, 1)):
+                        err, _ = C02.check_apply(L, N, nrows, ncols, a_size, res_size, cpu, lay, cn)
+                        n += 1
+                        if err:
+                            bad = bad or (dict(sh, a_size=a_size, res_size=res_size), 'consumer: ' + err)
+                except (Unsupported, NeedEnum) as e:
+                    R.broke('prepared matrix %s: %s' % (sh, e))
+        subj = 'vmp_prepare_contiguous -> vmp_apply_dft_to_dft [%s]' % cpu
+        if bad:
+            R.ob('prepared-matrix-producer-and-consumer-agree', subj, 'refuted', detail=bad[1], key='vmp_pmat:agreement',
+                 witness=dict(bad[0], cpu=cpu))
+        else:
+            R.ob('prepared-matrix-producer-and-consumer-agree', subj, 'holds')
+    return n
+
+
 def run(tier):
     R = Report('C16', tier)
     L, G = ctx.lib(), ctx.cg()
@@ -330,6 +368,8 @@ def run(tier):
     R.floor('public wrappers checked', nw, 38)
     nr = layout(L, R, tier)
     ns = stage_dependence(L, R, tier)
+    nm = prepared_matrix(L, R, tier)
+    R.floor('prepared-matrix producer/consumer instantiations', nm, 100)
     R.floor('value-mode instantiations for the stage-dependence clause', ns, 15000)
     R.evaluations = nr + nw + ns
     R.floor('value-mode instantiations for the layout clause', nr, 900)
